@@ -242,25 +242,357 @@ def cmp_c01(rec, job, obs, gram):
     return d
 
 
+
+FORMS = ("str", "pos", "span")
+
+
+def forms_of(obs):
+    t = obs.get("t")
+    return [f for f in FORMS if isinstance(t, dict) and f in t and not t[f].get("invalid")]
+
+
+def cmp_c02(rec, job, obs, gram):
+    """pair tree = pest's minus pruning below @ / $ tokens"""
+    d = []
+    if not rec["ok"]:
+        return d
+    for form in forms_of(obs)[:1]:
+        pp = typed_form(obs, form, "pp")
+        if is_bad(pp) or not pp.get("ok"):
+            continue    # verdict is C01's business
+        if pp.get("toks") != rec["ptoks"]:
+            d.append((form + ".parse_partial.tokens", rec["ptoks"], pp.get("toks")))
+        pf = typed_form(obs, form, "pf")
+        if rec["full"]["ok"] and not is_bad(pf) and pf.get("ok") and pf.get("toks") != rec["ptoks"]:
+            d.append((form + ".parse.tokens", rec["ptoks"], pf.get("toks")))
+    return d
+
+
+def err_key(e):
+    if not e:
+        return None
+    e = e.get("err", e)
+    return (e.get("loc"), e.get("disp"), tuple(e.get("lc", [])))
+
+
+def cmp_c03(rec, job, obs, gram):
+    """check entry points = parse entry points (verdict, offset, error), and both = the model's verdict/offset"""
+    d = []
+    for form in forms_of(obs):
+        pp, cp, pf, cf = (typed_form(obs, form, k) for k in ("pp", "cp", "pf", "cf"))
+        ppt, cpt, pft, cft = (typed_form(obs, form, k) for k in ("ppt", "cpt", "pft", "cft"))
+        for nm, o in (("pp", pp), ("cp", cp), ("pf", pf), ("cf", cf), ("ppt", ppt), ("cpt", cpt), ("pft", pft), ("cft", cft)):
+            if is_bad(o):
+                d.append(("%s.%s" % (form, nm), "a result", o))
+        if d:
+            return d
+        if cp["ok"] != pp["ok"]:
+            d.append((form + ".check_partial.ok vs parse_partial.ok", pp["ok"], cp["ok"]))
+        elif pp["ok"] and cp["end"] != pp["end"]:
+            d.append((form + ".check_partial.end vs parse_partial.end", pp["end"], cp["end"]))
+        elif not pp["ok"] and err_key(cp) != err_key(pp):
+            d.append((form + ".check_partial.error vs parse_partial.error", pp.get("err"), cp.get("err")))
+        if cf["ok"] != pf["ok"]:
+            d.append((form + ".check.ok vs parse.ok", pf["ok"], cf["ok"]))
+        elif not pf["ok"] and err_key(cf) != err_key(pf):
+            d.append((form + ".check.error vs parse.error", pf.get("err"), cf.get("err")))
+        if cpt.get("trk") != ppt.get("trk") or cpt.get("ok") != ppt.get("ok") or cpt.get("end") != ppt.get("end"):
+            d.append((form + ".try_check_partial_with vs try_parse_partial_with", ppt, cpt))
+        elif ppt.get("ok") and cpt.get("stk") != ppt.get("stk"):
+            d.append((form + ".stack after check vs after parse", ppt.get("stk"), cpt.get("stk")))
+        if cft != pft:
+            d.append((form + ".try_check_with vs try_parse_with", pft, cft))
+    return d
+
+
+def cmp_c04(rec, job, obs, gram):
+    """full parse ok <=> prefix ok and rest empty after trailing skip (by kind); tree = prefix tree"""
+    d = []
+    for form in forms_of(obs):
+        pp, pf, cf, pft = (typed_form(obs, form, k) for k in ("pp", "pf", "cf", "pft"))
+        for nm, o in (("pf", pf), ("cf", cf), ("pp", pp), ("pft", pft)):
+            if is_bad(o):
+                d.append(("%s.%s" % (form, nm), "a result", o))
+        if d:
+            return d
+        exp = rec["full"]["ok"]
+        if pf["ok"] != exp:
+            d.append((form + ".parse.ok", exp, pf["ok"]))
+        if cf["ok"] != exp:
+            d.append((form + ".check.ok", exp, cf["ok"]))
+        if exp and pf["ok"] and pp.get("ok") and (pf.get("dbgh") != pp.get("dbgh") or pf.get("toks") != pp.get("toks")):
+            d.append((form + ".parse tree vs parse_partial tree", pp.get("toks"), pf.get("toks")))
+        if rec["ok"] and not exp and not pf["ok"]:
+            loc = pf["err"]["loc"]
+            if loc < rec["end"]:
+                d.append((form + ".parse error location before the matched prefix", ">= %d" % rec["end"], loc))
+    return d
+
+
+def cmp_c08(rec, job, obs, gram):
+    """sub-input = slice parsed on its own (rec is the model's run; equality of model runs across contexts is checked by the driver)"""
+    d = []
+    for form in forms_of(obs):
+        pp, cp, pf, cf, ppt, pft = (typed_form(obs, form, k) for k in ("pp", "cp", "pf", "cf", "ppt", "pft"))
+        for nm, o in (("pp", pp), ("cp", cp), ("pf", pf), ("cf", cf), ("ppt", ppt), ("pft", pft)):
+            if is_bad(o):
+                d.append(("%s.%s" % (form, nm), "a result", o))
+        if d:
+            return d
+        if pp["ok"] != rec["ok"] or (rec["ok"] and pp["end"] != rec["end"]):
+            d.append((form + ".parse_partial", {"ok": rec["ok"], "end": rec["end"]}, {"ok": pp["ok"], "end": pp.get("end")}))
+        elif rec["ok"] and pp["toks"] != rec["ptoks"]:
+            d.append((form + ".parse_partial.tokens", rec["ptoks"], pp["toks"]))
+        if cp["ok"] != rec["ok"] or (rec["ok"] and cp["end"] != rec["end"]):
+            d.append((form + ".check_partial", {"ok": rec["ok"], "end": rec["end"]}, {"ok": cp["ok"], "end": cp.get("end")}))
+        if pf["ok"] != rec["full"]["ok"]:
+            d.append((form + ".parse.ok", rec["full"]["ok"], pf["ok"]))
+        if cf["ok"] != rec["full"]["ok"]:
+            d.append((form + ".check.ok", rec["full"]["ok"], cf["ok"]))
+        if not rec["ok"] and not ppt.get("ok") and ppt["trk"]["pos"] != rec["trk"]["pos"]:
+            d.append((form + ".error position (relative to the slice)", rec["trk"]["pos"], ppt["trk"]["pos"]))
+    return d
+
+
+def walk_bad(o, path=""):
+    """any panic / out-of-range or non-boundary offset flagged by the runner"""
+    out = []
+    if isinstance(o, dict):
+        if "panic" in o:
+            out.append((path + ".panic", "no panic", o["panic"][:200]))
+        for k in ("bad", "badend", "badtok"):
+            if o.get(k) is True:
+                out.append((path + "." + k, "offset in range on a char boundary", o))
+        for k, v in o.items():
+            out += walk_bad(v, path + "." + k if path else k)
+    return out
+
+
+def cmp_c09(rec, job, obs, gram):
+    d = []
+    if obs.get("crash") is not None or obs.get("timeout") or obs.get("missing"):
+        return [("process", "returns", obs)]
+    d += walk_bad(obs.get("t"), "t")
+    for form in forms_of(obs):
+        pp = typed_form(obs, form, "pp")
+        if not is_bad(pp) and pp.get("ok") == rec["ok"] and rec["ok"] and pp.get("end") != rec["end"]:
+            d.append((form + ".end", rec["end"], pp.get("end")))
+    return d
+
+
+def claims_ok(trk, log, minpos):
+    """C10 oracle on one tracker report: in range (runner flag), not before minpos, every claim backed by the log"""
+    d = []
+    if trk.get("bad"):
+        d.append(("location out of range / off boundary", "in range", trk["pos"]))
+    L = trk["pos"]
+    if L < minpos:
+        d.append(("location before the matched prefix", ">= %d" % minpos, L))
+    for ent in trk.get("att", []):
+        for r in ent["p"]:
+            if not any(x[0] == r and x[1] == L and not x[2] for x in log):
+                d.append(("expected rule %s never failed at %d" % (r, L), "a failed invocation at the location", ent))
+        for r in ent["n"]:
+            if not any(x[0] == r and x[1] == L and x[2] for x in log):
+                d.append(("unexpected rule %s never matched at %d" % (r, L), "a successful invocation at the location", ent))
+    return d
+
+
+def cmp_c10(rec, job, obs, gram):
+    d = []
+    for form in forms_of(obs):
+        pp, ppt, pf, pft, cpt, cft = (typed_form(obs, form, k) for k in ("pp", "ppt", "pf", "pft", "cpt", "cft"))
+        for nm, o in (("pp", pp), ("ppt", ppt), ("pf", pf), ("pft", pft)):
+            if is_bad(o):
+                d.append(("%s.%s" % (form, nm), "a result", o))
+        if d:
+            return d
+        if not ppt["ok"] and not rec["ok"]:
+            for x in claims_ok(ppt["trk"], rec["plog"], 0):
+                d.append((form + ".partial: " + x[0], x[1], x[2]))
+            if pp.get("err"):
+                e = pp["err"]
+                if e.get("disp") == "PANIC":
+                    d.append((form + ".rendering the error panicked", "a string", "PANIC"))
+                if e.get("nondet"):
+                    d.append((form + ".two runs gave different reports", "same", "different"))
+                if e.get("bad") or e.get("loc") != ppt["trk"]["pos"]:
+                    d.append((form + ".Error.location", ppt["trk"]["pos"], e))
+        if not pft["ok"] and not rec["full"]["ok"]:
+            for x in claims_ok(pft["trk"], rec["log"], rec["end"] if rec["ok"] else 0):
+                d.append((form + ".full: " + x[0], x[1], x[2]))
+            if pf.get("err") and pf["err"].get("disp") == "PANIC":
+                d.append((form + ".rendering the error panicked", "a string", "PANIC"))
+    return d
+
+
+def report_equal(rec, obs):
+    ppt = typed_form(obs, "str", "ppt") or typed_form(obs, "span", "ppt")
+    if not ppt or ppt.get("ok") or rec["ok"]:
+        return None
+    m = [{"u": None if e["u"] == "-" else e["u"], "p": e["p"], "n": e["n"], "s": len(e["s"])} for e in rec["trk"]["att"]]
+    o = [{"u": e["u"], "p": e["p"], "n": e["n"], "s": len(e["s"])} for e in ppt["trk"]["att"]]
+    key = lambda e: str(e["u"])
+    return ppt["trk"]["pos"] == rec["trk"]["pos"] and sorted(m, key=key) == sorted(o, key=key)
+
+
 def grams_for(prop, tier, seed):
     q = tier == "quick"
-    if prop in ("C01", "C02", "C03", "C09"):
-        g = families.fam_ops(tier)
-        g += families.fam_rand(tier, seed, 12 if q else 60, "plain")
-        g += families.fam_rand(tier, seed, 8 if q else 40, "stack")
-        g += families.fam_rand(tier, seed, 8 if q else 40, "ws")
-        g += families.fam_rand(tier, seed, 6 if q else 30, "utf8")
-        g += families.fam_utf8(tier)
+    F = families
+    if prop in ("C01", "C02"):
+        g = F.fam_ops(tier)
+        g += F.fam_rand(tier, seed, 12 if q else 60, "plain")
+        g += F.fam_rand(tier, seed, 8 if q else 40, "stack")
+        g += F.fam_rand(tier, seed, 8 if q else 40, "ws")
+        g += F.fam_rand(tier, seed, 6 if q else 30, "utf8")
+        g += F.fam_utf8(tier)
+        k = F.fam_kinds(tier)
+        g += k[::9] if q else k[::2]
+        if prop == "C02":
+            g += F.fam_dyck_inputs(tier)
+        return g
+    if prop == "C03":
+        g = F.fam_ops(tier)
+        if q:
+            g = g[::2]
+        g += F.fam_rand(tier, seed, 8 if q else 40, "plain")
+        g += F.fam_rand(tier, seed, 8 if q else 40, "stack")
+        g += F.fam_rand(tier, seed, 6 if q else 30, "ws")
+        st = F.fam_stack(tier)
+        g += st[::3] if q else st
+        g += F.fam_err(tier)
+        k = F.fam_kinds(tier)
+        g += k[::12] if q else k[::3]
+        return g
+    if prop == "C04":
+        g = F.fam_trail(tier)
+        k = F.fam_kinds(tier)
+        g += k[::9] if q else k[::2]
+        g += F.fam_rand(tier, seed, 6 if q else 30, "ws")
+        return g
+    if prop == "C08":
+        g = F.fam_sub(tier)
+        ctx = [[cps(a), cps(b)] for a, b in [["", ""], ["", "b"], ["x", ""], ["a", "b"], ["é", "é"], [" ", " "], ["ab", "a"]]]
+        extra = F.fam_rand(tier, seed, 5 if q else 25, "plain") + F.fam_rand(tier, seed, 4 if q else 20, "ws") + F.fam_rand(tier, seed, 3 if q else 15, "utf8")
+        ops = F.fam_ops(tier)
+        extra += ops[::6] if q else ops[::2]
+        for x in extra:
+            x["ctxs"] = ctx if not q else ctx[:5]
+            x["maxlen"] = min(x.get("maxlen", 3), 3)
+        return g + extra
+    if prop == "C09":
+        g = F.fam_utf8(tier) + F.fam_sub(tier)
+        g += F.fam_rand(tier, seed, 10 if q else 60, "utf8")
+        g += F.fam_rand(tier, seed, 5 if q else 30, "stack")
+        ops = F.fam_ops(tier)
+        g += ops[::5] if q else ops[::2]
+        return g
+    if prop == "C10":
+        g = F.fam_err(tier) + F.fam_trail(tier)[:2 if q else 6]
+        g += F.fam_rand(tier, seed, 8 if q else 50, "plain")
+        g += F.fam_rand(tier, seed, 6 if q else 30, "stack")
+        ops = F.fam_ops(tier)
+        g += ops[::5] if q else ops[::2]
         return g
     raise KeyError(prop)
+
+
+RULE_A = "one behaviour = (grammar, entry rule, input[, context]) of the corpus (operator compositions under the five rule kinds, kind chains, stack / skip / utf8 / seeded random grammars; all inputs up to the length bound over each grammar's alphabet plus structured sentences). TLC runs the machine on each (M1: machine = denotation; M2, M6, M9, M11 in every state / step) and prints the expected record; the real entry points are run on each and the decisive fields compared. non-trivial = the model consumed input or the tracker advanced. "
 
 
 def check_C01(tier, seed):
     ctx = Ctx("C01", tier, seed)
     grams = grams_for("C01", tier, seed)
     ctx.notes["grammars"] = len(grams)
-    run_generic(ctx, "c01", grams, "sP", cmp_c01, famname="main")
-    return ctx.finish(rule="one behaviour = (grammar, entry rule, input) of the corpus: every operator alone and in depth-2 compositions under the five rule kinds, with and without WHITESPACE/COMMENT, seeded random grammars (plain / stack / skip / utf8 flavours), all inputs up to the length bound over each grammar's alphabet; TLC runs the machine and checks M1 (machine = denotation), the real try_parse_partial is run on each and verdict + consumed byte offset compared; non-trivial = the model consumed input or the tracker advanced")
+    run_generic(ctx, "c01", grams, "sP", cmp_c01)
+    return ctx.finish(rule=RULE_A + "Decisive: verdict and consumed byte offset of try_parse_partial.")
 
 
-CHECKS = {"C01": check_C01}
+def check_C02(tier, seed):
+    ctx = Ctx("C02", tier, seed)
+    grams = grams_for("C02", tier, seed)
+    ctx.notes["grammars"] = len(grams)
+    run_generic(ctx, "c02", grams, "sP", cmp_c02)
+    return ctx.finish(rule=RULE_A + "Decisive: the token tree of self_or_children() (rule, start, end, depth in pre-order) against Prune(Tokens) of the model; Tokens itself is validated against pest's Pairs on every behaviour where pest is defined.")
+
+
+def check_C03(tier, seed):
+    ctx = Ctx("C03", tier, seed)
+    grams = grams_for("C03", tier, seed)
+    ctx.notes["grammars"] = len(grams)
+    run_generic(ctx, "c03", grams, "spn", cmp_c03, with_pest=False)
+    return ctx.finish(rule=RULE_A + "Decisive: try_check / try_check_partial against try_parse / try_parse_partial on the same input object, for &str, Position and Span: verdict, offset, rendered error, tracker report, final stack; and both against the model.")
+
+
+def check_C04(tier, seed):
+    ctx = Ctx("C04", tier, seed)
+    grams = grams_for("C04", tier, seed)
+    ctx.notes["grammars"] = len(grams)
+    run_generic(ctx, "c04", grams, "spn", cmp_c04, with_pest=False)
+    return ctx.finish(rule=RULE_A + "Decisive: verdict of try_parse / try_check against SemFull (prefix, trailing skip by rule kind, end of input); on success the tree equals the prefix tree; on failure the location is not before the prefix end.")
+
+
+def check_C08(tier, seed):
+    ctx = Ctx("C08", tier, seed)
+    grams = grams_for("C08", tier, seed)
+    ctx.notes["grammars"] = len(grams)
+    rows = run_generic(ctx, "c08", grams, "spn", cmp_c08, with_pest=False)
+    # model-level M7: the run on (pre . s . post, |pre|, |pre|+|s|) equals the run on s alone, shifted
+    groups = {}
+    for rec, job, obs, gram in rows:
+        groups.setdefault((job["g"], job["rule"], tuple(job["inp"])), []).append((rec, job))
+    n = 0
+    for k, v in groups.items():
+        base = [r for r, j in v if not j["pre"] and not j["post"]]
+        if not base:
+            continue
+        b = base[0]
+        for r, j in v:
+            n += 1
+            for f in ("ok", "end", "ptoks", "trk", "full"):
+                if r[f] != b[f]:
+                    raise ToolError("model M7 violated (spec bug): %s %s differs between contexts: %s vs %s" % (k, f, r[f], b[f]))
+    ctx.notes["model_M7_context_comparisons"] = n
+    return ctx.finish(rule=RULE_A + "Contexts: each behaviour is run as Span(pre.s.post) and Position(pre.s) for contexts incl. completions of straddling needles / literals / multi-byte characters; the model's own runs are checked to be context-independent (M7) and the real results (verdict, relative offsets, tokens, error position; partial and full entry points) compared with the model run.")
+
+
+def check_C09(tier, seed):
+    ctx = Ctx("C09", tier, seed)
+    grams = grams_for("C09", tier, seed)
+    ctx.notes["grammars"] = len(grams)
+    rows = run_generic(ctx, "c09", grams, "spn", cmp_c09, with_pest=False)
+    # second build profile: no debug assertions / overflow checks => the get_unchecked paths
+    profiles = ["nodbg"] + (["release"] if tier == "thorough" else [])
+    for prof in profiles:
+        binp, errs = famgen.build_family("fam_c09", prof)
+        if binp is None:
+            raise ToolError("profile %s build failed: %s" % (prof, errs))
+        send = [{k: v for k, v in j.items() if k != "_rec"} for _, j, _, _ in rows]
+        res = peg.run_runner(binp, send)
+        ndiff = 0
+        for rec, job, obs, gram in rows:
+            o2 = res.get(job["idx"], {"missing": True})
+            ctx.cov["evaluations"] += 1
+            d = cmp_c09(rec, job, o2, gram)
+            if not d and o2 != obs:
+                d = [("profile %s differs from dev" % prof, obs, o2)]
+            if d:
+                ndiff += 1
+                f, e, o = d[0]
+                ctx.violation("%s [%s]: %s rule %s input %r" % (f, prof, gram["id"], job["rule"], uncps(job["inp"])), replay_of(rec, job, o2, gram, f + " [" + prof + "]", e, o))
+        ctx.notes["profile_" + prof + "_runs"] = len(rows)
+    return ctx.finish(rule=RULE_A + "Alphabets mix 1-, 2-, 3-, 4-byte characters and CR/LF. Decisive: no panic / abort / timeout; every reported offset (cursor, token spans, error location) inside the input range on a char boundary (tested by the runner before any slicing); identical records in the dev profile and in a profile without debug assertions (unchecked slicing), thorough: release too.")
+
+
+def check_C10(tier, seed):
+    ctx = Ctx("C10", tier, seed)
+    grams = grams_for("C10", tier, seed)
+    ctx.notes["grammars"] = len(grams)
+    rows = run_generic(ctx, "c10", grams, "spn", cmp_c10, emit="all", with_pest=False)
+    eq = [report_equal(rec, obs) for rec, job, obs, gram in rows]
+    ctx.notes["reports_equal_to_model_tracker"] = sum(1 for x in eq if x)
+    ctx.notes["reports_differing_from_model_tracker_(drift,not_decisive)"] = sum(1 for x in eq if x is False)
+    return ctx.finish(rule=RULE_A + "Decisive (rejected inputs, partial and full entry points, three input forms): location in range on a boundary and not before the matched prefix; every rule listed as expected has a failed invocation at the location in the model's invocation log, every rule listed as unexpected a successful one (M9 checks the same of the model's own tracker); Display does not panic; two runs give the same report.")
+
+
+CHECKS = {"C01": check_C01, "C02": check_C02, "C03": check_C03, "C04": check_C04, "C08": check_C08, "C09": check_C09, "C10": check_C10}
